@@ -446,7 +446,7 @@ pub enum WildCell {
     RowMaxPlus,
 }
 
-pub const HAND_CONFIGS: [(&str, [usize; 5], WildCell); 10] = [
+pub const HAND_CONFIGS: [(&str, [usize; 5], WildCell); 11] = [
     ("uniform, N=-inf", [1, 1, 1, 1, 0], WildCell::NegInf),
     ("nonuniform(.1,.2,.3,.4,0), N=-inf", [1, 2, 3, 4, 0], WildCell::NegInf),
     ("wildcard(.2,.3,.1,.3,.1), N=row minimum", [2, 3, 1, 3, 1], WildCell::RowMin),
@@ -463,6 +463,8 @@ pub const HAND_CONFIGS: [(&str, [usize; 5], WildCell); 10] = [
     ("wildcard(.2,.3,.1,.3,.1), N=row maximum + 1", [2, 3, 1, 3, 1], WildCell::RowMaxPlus),
     // a non-wildcard symbol with background frequency exactly 0 but finite scores (hand-built matrix)
     ("zero-frequency symbol(.5,0,.25,.25,0), N=-inf", [2, 0, 1, 1, 0], WildCell::NegInf),
+    // a symbol that is possible but rarer than f32::EPSILON (2^-24)
+    ("tiny frequency(.5,.25,.25-2^-24,2^-24,0), N=-inf", [8388608, 4194304, 1, 4194303, 0], WildCell::NegInf),
 ];
 
 pub fn hand(hi: usize, ci: usize) -> Mat {
@@ -541,7 +543,7 @@ pub fn menu_text(widths: &[usize], windows: &dyn Fn(usize) -> usize, pseudos: &[
 pub fn hand_text() -> String {
     let names: Vec<&str> = hand_rows().iter().map(|h| h.0).collect();
     format!(
-        "{} hand matrices ({}: integers, halves, tenths, narrow range, narrow range with offset, constant (small == large branch), constant rows, offset drift, frozen log-odds cells, wide range) x {} wildcard/background configurations (uniform N=-inf; (.1,.2,.3,.4,0) N=-inf; (.2,.3,.1,.3,.1) N=row minimum; (.2,.3,.1,.3,.1) N=-inf; (.1,.2,.3,.4,0) N=0.0; (.1,.2,.3,.4,0) N=+1.0; skewed (2^-10,2^-10,1-3*2^-10,2^-10,0) N=-inf: tails below machine epsilon; very skewed (2^-14 x3) N=-inf; (.2,.3,.1,.3,.1) N=row maximum + 1; (.5,0,.25,.25,0) with a zero-frequency symbol N=-inf)",
+        "{} hand matrices ({}: integers, halves, tenths, narrow range, narrow range with offset, constant (small == large branch), constant rows, offset drift, frozen log-odds cells, wide range) x {} wildcard/background configurations (uniform N=-inf; (.1,.2,.3,.4,0) N=-inf; (.2,.3,.1,.3,.1) N=row minimum; (.2,.3,.1,.3,.1) N=-inf; (.1,.2,.3,.4,0) N=0.0; (.1,.2,.3,.4,0) N=+1.0; skewed (2^-10,2^-10,1-3*2^-10,2^-10,0) N=-inf: tails below machine epsilon; very skewed (2^-14 x3) N=-inf; (.2,.3,.1,.3,.1) N=row maximum + 1; (.5,0,.25,.25,0) with a zero-frequency symbol N=-inf; a symbol of frequency 2^-24 N=-inf)",
         names.len(),
         names.join(" "),
         HAND_CONFIGS.len()
